@@ -672,6 +672,49 @@ for _text_limit in ("maxstring", "maxother"):
                 break
 """),
     ],
+    "seeded/C19_r9_async_invariant_condition_behind_partial": [
+        ("icontract/_decorators.py", """        invoked = condition  # type: Any
+        while isinstance(invoked, functools.partial):
+            invoked = invoked.func
+
+        if (
+            inspect.iscoroutinefunction(invoked)
+            or inspect.isasyncgenfunction(invoked)
+            or (
+                not inspect.isfunction(invoked)
+                and not inspect.ismethod(invoked)
+                and (
+                    inspect.iscoroutinefunction(getattr(invoked, "__call__", None))
+                    or inspect.isasyncgenfunction(getattr(invoked, "__call__", None))
+                )
+            )
+        ):
+""", """        #
+        # Determine first what is actually run when the condition is called, and examine only that.
+        invoked = condition  # type: Any
+        if not inspect.isfunction(condition) and not inspect.ismethod(condition):
+            invoked = getattr(condition, "__call__", None)
+
+        if inspect.iscoroutinefunction(invoked) or inspect.isasyncgenfunction(invoked):
+"""),
+    ],
+    "mutants/c19_fix_partial_looked_through_reverted": [
+        ("icontract/_decorators.py", """        while isinstance(invoked, functools.partial):
+            invoked = invoked.func
+""", ""),
+    ],
+    "mutants/c17_fix_function_of_another_class_merged_again": [
+        (META, """    if _is_defined_in_another_class(namespace=namespace, func=func):
+        return
+
+""", ""),
+    ],
+    "mutants/c17_fix_accessor_of_another_class_merged_again": [
+        (META, """        if _is_defined_in_another_class(namespace=namespace, func=func):
+            continue
+
+""", ""),
+    ],
     "seeded/C04_r3_async_pre_returns_at_first_failed_group": [
         (CHK, """            if not_check(check=check, contract=contract):
                 violated = contract
